@@ -641,6 +641,7 @@ def run(res):
                       "ArenaHash(ArenaHash&&)): " + " | ".join(err[:2])[:500],
                       {"source": "harness/c18_move_probe.cpp", "how": " ".join(base), "errors": err[:6]}, True, key="compile:move")
     FLAGS[:] = flags
+    res.coverage["real_move_operations"] = flags or ["emulated: move operations do not compile"]
 
     # -- L2b correspondence + L3 monitor ------------------------------------------------------------
     h = vlib.build_harness("c18", extra_flags=flags)
@@ -687,13 +688,17 @@ def run(res):
                 nontriv.add(o + "|" + a)
         if j["kind"] in ("bad", "abort", "protocol"):
             seen_keys.setdefault(j["key"], j)
-        if j["kind"] == "good":
+        # correspondence: judged for EVERY scenario. A difference is explained only by a violation at or before the same
+        # operation of the same scenario (the monitor's verdict on that op, or the abort); any earlier difference is reported.
+        if j.get("harness") != "plain":
+            explained_from = j.get("idx", len(ops)) if j["kind"] in ("bad", "abort") else len(ops) + 1
             if j["model_rc"] != 0 or len(model) != len(ops):
-                diffs.append((j["name"], 0, "driver failed", ""))
+                diffs.append((j["name"], 0, "driver failed or answered %d of %d lines" % (len(model), len(ops)), "", ops[:1]))
             else:
-                d = vlib.first_diff(impl, model)
-                if d is not None:
-                    diffs.append((j["name"], d, impl[d] if d < len(impl) else "", model[d] if d < len(model) else "", ops[:d + 1]))
+                n = min(len(impl), len(model))
+                d = vlib.first_diff(impl[:n], model[:n])
+                if d is not None and d < explained_from:
+                    diffs.append((j["name"], d, impl[d], model[d], ops[:d + 1]))
     res.coverage["evaluations"] = nev
     res.coverage["distinct_nontrivial"] = len(nontriv)
     res.coverage["rule"] = ("seeded scenarios per container (arena incl. soft-reset reuse and dynamic-only arenas, vector growth steps and "
@@ -718,14 +723,16 @@ def run(res):
         res.violation("property violated on the real code (%s): %s" % (key, jj.get("what", j["what"])),
                       {"ops": small, "scenario": j["name"], "harness": j.get("harness", "asan"), "monitor": jj.get("what", j["what"]), "stderr": jj.get("stderr", ""),
                        "how": "python3 tools/check.py replay <this file>"}, True, key=key)
-    if not seen_keys and diffs:
+    if nev == 0 or not results:
+        res.violation("empty run: no operation was executed on the real code", {"scenarios": len(results)}, False, key="empty")
+    if diffs:
         name, d, a, b = diffs[0][:4]
         ops = diffs[0][4] if len(diffs[0]) > 4 else []
         res.violation("correspondence model/implementation differs in scenario %s at op %d: impl=%s model=%s (%d scenarios differ); the "
-                      "monitor accepts every answer of the implementation" % (name, d, a, b, len(diffs)),
+                      "monitor accepts the answers of the implementation up to that operation" % (name, d, a, b, len(diffs)),
                       {"ops": ops[-60:], "impl": a, "model": b, "unchecked": "correspondence Model/*.lean ~ asmjit/support/arena*.cpp, core/string.cpp"},
                       False, key="corr")
-    elif not seen_keys and broken:
+    if broken:
         res.violation("proof obligation no longer checks: " + " | ".join(broken)[:1500], {"unchecked": broken}, False, key="obligation")
 
 
